@@ -145,7 +145,9 @@ class B:
                         return f"{what}: `{ops[i][:60]}` -> {str(got)[:80]}, expected {val[:80]}"
             return None
 
-        return Case(self.ops, oracle if cons else None, self.tags, self.name)
+        c = Case(self.ops, oracle if cons else None, self.tags, self.name)
+        c.cons = cons
+        return c
 
 
 def split_chunks(r, data, k=None):
